@@ -183,6 +183,8 @@ func ruleText(ss []*pstmt, d int, b *strings.Builder) {
 			fmt.Fprintf(b, "%s%s\n", ind(d), s.kind)
 		case "return":
 			fmt.Fprintf(b, "%sreturn %s\n", ind(d), s.rhs)
+		case "retvoid":
+			fmt.Fprintf(b, "%sreturn\n", ind(d))
 		}
 	}
 }
@@ -227,6 +229,8 @@ func goText(ss []*pstmt, d int, b *strings.Builder) {
 			fmt.Fprintf(b, "%s%s\n", tab, s.kind)
 		case "return":
 			fmt.Fprintf(b, "%sreturn %s, true, x, y\n", tab, s.rhs)
+		case "retvoid":
+			fmt.Fprintf(b, "%svoidReturn = true\n%sreturn 0, true, x, y\n", tab, tab)
 		}
 	}
 }
@@ -259,6 +263,9 @@ func (c *condSrc) get(id int) bool {
 
 func obs(id int) { vnd.Event("t" + strconv.Itoa(id)) }
 
+// voidReturn is set by the reference program when it ends in a bare return.
+var voidReturn bool
+
 // compare runs the compiled rule and checks it against the reference outcome.
 func compare(text string, cs *condSrc, n int64, S *St, arr []int64, mp map[int64]int64,
 	ref func(cs *condSrc, n int64, S *St, arr []int64, mp map[int64]int64) (int64, bool, int64, int64)) {
@@ -284,6 +291,7 @@ func compare(text string, cs *condSrc, n int64, S *St, arr []int64, mp map[int64
 	// reference run on the same inputs
 	S.N = s0
 	cs.reset()
+	voidReturn = false
 	ret, returned, rx, ry := ref(cs, n, S, arr, mp)
 	tr2 := vnd.Trace()[len(tr1):]
 	vnd.Assert(err == nil, "a well-formed program runs without error")
@@ -297,7 +305,9 @@ func compare(text string, cs *condSrc, n int64, S *St, arr []int64, mp map[int64
 	vnd.Assert(got == S.N, "injected field has the reference value")
 	v, has := res["r"]
 	vnd.Assert(has == returned, "return reached iff the reference returns")
-	if has && returned {
+	if has && returned && voidReturn {
+		vnd.Assert(v == nil, "a bare return yields no value")
+	} else if has && returned {
 		x, ok := v.(int64)
 		vnd.Assert(ok, "returned value type")
 		vnd.Assert(x == ret, "returned value")
@@ -383,6 +393,9 @@ func genC02(tier string, seed int64) (*Family, error) {
 		{"injected_loop_var", []*pstmt{{kind: "for", lv: "S.N", bound: "n", body: []*pstmt{o(1), {kind: "if", cond: c(2), body: []*pstmt{{kind: "return", rhs: "x"}}}, as("x", "+=", "1")}}, o(3)}},
 		{"injected_loop_var_nested_return", []*pstmt{{kind: "for", lv: "S.N", bound: "3", body: []*pstmt{{kind: "forrange", lv: "p", body: []*pstmt{{kind: "if", cond: c(1), body: []*pstmt{{kind: "return", rhs: "y"}}}, as("y", "+=", "1")}}, o(2)}}, o(3)}},
 		{"injected_loop_var_break_continue", []*pstmt{{kind: "for", lv: "S.N", bound: "3", body: []*pstmt{{kind: "if", cond: c(1), body: []*pstmt{{kind: "continue"}}}, {kind: "if", cond: c(2), body: []*pstmt{{kind: "break"}}}, o(3)}}, o(4)}},
+		{"bare_return_in_if", []*pstmt{o(1), {kind: "if", cond: c(2), body: []*pstmt{o(3), {kind: "retvoid"}}}, as("x", "+=", "1"), o(4)}},
+		{"bare_return_in_for", []*pstmt{{kind: "for", lv: "i", bound: "n", body: []*pstmt{o(1), {kind: "if", cond: c(2), body: []*pstmt{{kind: "retvoid"}}}, as("y", "+=", "1")}}, o(3)}},
+		{"bare_return_in_forrange_else", []*pstmt{{kind: "forrange", lv: "p", body: []*pstmt{{kind: "if", cond: c(1), body: []*pstmt{o(2)}, elifs: []pelif{{c(5), []*pstmt{o(6)}}}, hasEl: true, els: []*pstmt{{kind: "retvoid"}}}, o(3)}}, o(4)}},
 		{"break_in_elseif", []*pstmt{{kind: "for", lv: "i", bound: "n", body: []*pstmt{o(1), {kind: "if", cond: c(2), body: []*pstmt{o(3)}, elifs: []pelif{{c(4), []*pstmt{{kind: "break"}}}}, hasEl: true, els: []*pstmt{o(5)}}, as("x", "+=", "1"), o(6)}}, o(7)}},
 		{"continue_in_elseif", []*pstmt{{kind: "forrange", lv: "p", body: []*pstmt{o(1), {kind: "if", cond: c(2), body: []*pstmt{o(3)}, elifs: []pelif{{c(4), []*pstmt{o(8)}}, {c(5), []*pstmt{{kind: "continue"}}}}}, as("y", "+=", "2"), o(6)}}, o(7)}},
 		{"break_continue_in_else", []*pstmt{{kind: "for", lv: "i", bound: "3", body: []*pstmt{{kind: "if", cond: c(1), body: []*pstmt{o(2)}, hasEl: true, els: []*pstmt{{kind: "if", cond: c(3), body: []*pstmt{{kind: "break"}}, hasEl: true, els: []*pstmt{{kind: "continue"}}}}}, o(4)}}, o(5)}},
@@ -419,6 +432,31 @@ func Q_visibility() {
 	}
 }
 `)
+	// before its first assignment a local is not there: reading it in any position fails the rule
+	for k, stmt := range []string{"cnt += 5", "cnt -= 5", "cnt *= 5", "cnt /= 5", "y = cnt", "y = 1 + cnt", "if cnt > 0 {\n  t(9)\n }", "t(cnt)", "for i = 0; i < cnt; i += 1 {\n  t(9)\n }", "s += \"ab\""} {
+		name := fmt.Sprintf("Q_unbound_%d", k)
+		text := "rule \"r\" begin\n t(1)\n if init {\n  cnt = 10\n  s = \"x\"\n }\n " + stmt + "\n t(2)\n return 1\nend\n"
+		fmt.Fprintf(&b, `
+// %s with the local assigned only when init holds
+func %s() {
+	init := vnd.Bool("init")
+	dc := context.NewDataContext()
+	dc.Add("t", func(id int64) { obs(int(id)) })
+	dc.Add("init", init)
+	rb := builder.NewRuleBuilder(dc)
+	must(rb.BuildRuleFromString(%q), "build")
+	eng := engine.NewGengine()
+	err := eng.Execute(rb, true)
+	res, _ := eng.GetRulesResultMap()
+	vnd.Reach("executed")
+	vnd.Assert(vnd.Iff(err == nil, init), "a local can be read iff it was assigned before")
+	_, has := res["r"]
+	vnd.Assert(has == init, "the rule reaches its return iff the local was assigned")
+	vnd.Assert(vnd.Iff(vnd.Count("t2") == 1, init), "no later statement runs after the read of an unassigned local")
+}
+`, strings.ReplaceAll(stmt, "\n", " "), name, text)
+		fam.Instances = append(fam.Instances, Instance{Func: name, Stratum: "clause:unbound", Desc: "unassigned local in: " + strings.ReplaceAll(stmt, "\n", " "), Text: text, Expect: []string{"executed"}})
+	}
 	fam.Instances = append(fam.Instances, Instance{Func: "Q_visibility", Stratum: "clause:visibility", Desc: "local visibility across nesting", Expect: []string{"executed"}})
 	head := "package " + pkg + "\n\nimport (\n\t\"strconv\"\n\n\t\"github.com/bilibili/gengine/builder\"\n\t\"github.com/bilibili/gengine/context\"\n\t\"github.com/bilibili/gengine/engine\"\n\t\"github.com/bilibili/gengine/zz_verif/vnd\"\n)\n\nfunc must(err error, what string) {\n\tif err != nil {\n\t\tvnd.Assert(false, what+\" must succeed\")\n\t}\n}\n" + c02Lib
 	fam.Files[repoDir+"/zz_verif/"+pkg+"/h.go"] = head + b.String()
